@@ -507,6 +507,20 @@ def run(chk, tier, seed):
         if group < 10:
             group = 10
     check_main_wrapper(chk, prover)
+    # acceptance corpus: the control-flow programs of the C03 generator (defer / break / continue / return / .try in
+    # void, ?u64 and ?void functions, ?void value blocks, value-less exits) are well-typed by construction; each must be built
+    from props import c03
+    corpus = [(n, c03.emit(n, b, c, w)) for n, b, c, w in c03.generate(tier, seed)]
+    _, _, built, notbuilt = clifcheck.compile_programs('C01', 'corpus', clifcheck.PRELUDE + c03.OPT_HELPER, corpus)
+    for n, text, out in notbuilt:
+        first = [l for l in out.splitlines() if l.startswith('error') or 'panicked' in l or 'Error defining' in l or 'mismatched' in l][:2]
+        msg = ' / '.join(x.strip() for x in first)[:200] if first else 'compiler failed'
+        valueless = ('return;' in text and '-> ?void' in text) or any(l.strip().startswith('break `v') and 'nil' not in l for l in text.splitlines())
+        key = {'kind': 'rejected-well-typed', 'what': 'control-flow corpus', 'shape': 'value-less exit from a ?void function or block' if valueless else 'other'}
+        what = 'a well-typed control-flow program is not compiled (%s): %s' % (key['shape'], msg)
+        full = clifcheck.PRELUDE + c03.OPT_HELPER + text + 'main :: () { p := %s; }\n' % n
+        chk.report(key, what, replaylib.make_compile_replay('C01', 'corpus_' + n, full, out, what, key)); bad += 1
+    stats['acceptance_corpus'] = len(corpus); stats['acceptance_corpus_built'] = len(built)
     chk.cov.update({'programs': checked, 'disagreements_checked': bad, 'generated_programs': nprog, 'explanation': 'programs = generated entry functions compared with the reference semantics on every jointly feasible (CLIF path, reference path) pair, for all parameter values'})
     chk.cov.update(stats)
     chk.bounds.update({'statements_per_function': '<= %d at the top level, nesting depth <= %d' % (11 if tier == 'quick' else 16, 2 if tier == 'quick' else 3), 'loop_iterations': '<= 2', 'parameters': '1..4 scalars (all values)',
